@@ -20,7 +20,7 @@ Sigma == {<<"a", "b", "c">>[i] : i \in 1..NSigma}
 Edges(Q) == {<<p, a, q>> : p \in Q, a \in Sigma, q \in Q}
 Nfas(Q, m) == {[start |-> S, fin |-> F, delta |-> D] :
                  S \in SUBSET Q, F \in SUBSET Q, D \in UNION {kSubset(k, Edges(Q)) : k \in 0..(IF m < Cardinality(Edges(Q)) THEN m ELSE Cardinality(Edges(Q)))}}
-Cases ==
+Cases(dummy) ==
   LET as == SetToSeq(Nfas(0..(NQ - 1), MaxE))
       mine == {i \in 1..Len(as) : i % NShards = Shard}
   IN IF Mode = "pair"
@@ -28,7 +28,7 @@ Cases ==
           IN UNION {{[id |-> <<i, j>>, A |-> as[i], B |-> bs[j]] : j \in 1..Len(bs)} : i \in mine}
      ELSE {[id |-> <<i>>, A |-> as[i]] : i \in mine}
 
-ASSUME LET cs == SetToSeq(Cases) IN
+ASSUME LET cs == SetToSeq(Cases(0)) IN
        /\ ndJsonSerialize(OutFile, cs)
        /\ PrintT(<<"generated", Len(cs)>>)
 =============================================================================
